@@ -215,6 +215,8 @@ class Check:
                     "failing_clause": cls, "cases": [case], "detail": detail,
                     "count_in_this_run": sum(1 for c, _, _ in unknown if c == cls)})
                 self.violations.append((path, False))
+                # also in the log: what failed, on which (shortest) input
+                self.log("oracle failure [%s] on: %s -- %s" % (cls, case[:600], str(detail)[:400]))
         elif divs["count"] > 0:
             known_div = [d for d in divs["first"] if self.match_known("divergence", d["case"]) is not None]
             if len(known_div) == len(divs["first"]) and divs["count"] == len(divs["first"]):
@@ -228,6 +230,7 @@ class Check:
             "no_longer_checks": "correspondence %s (extracted Coq model vs /repo implementation)" % name,
             "why": why, "cases": [d["case"] for d in first], "diverging": first})
         self.violations.append((path, True))
+        self.log("correspondence %s broken: %s%s" % (name, str(why)[:400], ("; first diverging case: " + first[0]["case"][:500]) if first else ""))
 
     def broken_proof(self):
         path = self.write_replay({
